@@ -1546,6 +1546,11 @@ impl Tree {
 
 		// Step 2: Reload in-memory state to match restored files
 
+		// Cached blocks and values are keyed by table / vlog file id and offset.
+		// The restore rewinds those ids, so what is cached now belongs to the
+		// discarded timeline and would be served for the re-used ids.
+		self.core.inner.opts.block_cache.clear();
+
 		// Create a new LevelManifest from the current path
 		let new_levels = LevelManifest::new(Arc::clone(&self.core.inner.opts))?;
 
